@@ -235,7 +235,7 @@ func runC02(c *core.Ctx) {
 			}
 			conservation(c, eng, "script", p.Source, nil, h, nil, nil, func(cand string) (*host.Host, []audit.Resource, []audit.Resource, bool) {
 				h2 := host.New()
-				o2 := h2.RunScript(eng, cand, nil, nil)
+				o2 := h2.RunScript(eng, cand, nil, limited())
 				return h2, nil, nil, o2.Err == nil && o2.Escaped == nil
 			})
 		}
@@ -298,7 +298,7 @@ func runC02(c *core.Ctx) {
 						h2.Codes[k] = v
 					}
 					h2.UUID = preUUID
-					o2 := h2.RunTx(eng, cand, nil, []common.Address{host.Addr(1)}, nil)
+					o2 := h2.RunTx(eng, cand, nil, []common.Address{host.Addr(1)}, limited())
 					if o2.Err != nil || o2.Escaped != nil {
 						return h2, nil, nil, false
 					}
